@@ -216,3 +216,29 @@ def u_rank_logpdet(ip):
     c.assume(And(rs >= 0, rs <= 3))
     lp_s = ip.call(ip.repo(f"{MVN}::_log_pdet"), [ev], {"rank": rs, "tol": tol})
     c.oblige("log_pdet_with_symbolic_rank", to_sort(lp_s, Real) == sum((If(i >= 3 - rs, LOG(ev[i]), z3.RealVal(0)) for i in range(3)), z3.RealVal(0)))
+
+
+@unit("C18.mvn_degen_derived_rank_logpdet", "C18", [f"{MVN}::MultivariateNormalDegenerate.rank", f"{MVN}::MultivariateNormalDegenerate.log_pdet", f"{MVN}::MultivariateNormalDegenerate.eig"],
+      summaries=[f"{MVN}::_rank / _log_pdet (C18.rank_and_log_pdet)"], assumptions=["T: jnp.linalg.eigh(P) returns the eigenvalues of P in ascending order"])
+def u_mvn_derived(ip):
+    """when rank / log-pseudo-determinant are not supplied they are derived from the eigenvalues of the precision matrix with the
+    distribution's own tolerance (and the derived rank is what selects the eigenvalues of the pseudo-determinant); supplied values win."""
+    c = ip.ctx
+    cls = ip.repo(f"{MVN}::MultivariateNormalDegenerate")
+    P, ev = z3.Const("P", U), z3.Const("eigenvalues_of_P", U)
+    tol = c.fresh("tol", Real)
+    ip.models["jax.numpy.linalg.eigh"] = lambda ip_, m: (ip_.uf("eigvals_of", ip_.to_U(m)), ip_.uf("eigvecs_of", ip_.to_U(m)))
+    got = {}
+    ip.summaries[f"{MVN}::_rank"] = lambda ip_, args, kwargs: (got.__setitem__("rank_args", (args, kwargs)), z3.Real("derived_rank"))[1]
+    ip.summaries[f"{MVN}::_log_pdet"] = lambda ip_, args, kwargs: (got.__setitem__("lpd_args", (args, kwargs)), z3.Real("derived_log_pdet"))[1]
+    d = Obj(cls, {"_prec": P, "_loc": z3.Const("loc", U), "_rank": None, "_log_pdet": None, "_tol": tol})
+    r = ip.getattr(d, "rank")
+    a, k = got["rank_args"]
+    c.oblige("rank_from_eigenvalues_of_precision", r.eq(z3.Real("derived_rank")) and ip.to_U(a[0]).eq(ip.uf("eigvals_of", P)) and k.get("tol") is tol)
+    lp = ip.getattr(d, "log_pdet")
+    a, k = got["lpd_args"]
+    rest = list(a[1:]) + [k.get("rank")] if len(a) < 2 else list(a[1:])
+    c.oblige("log_pdet_from_same_eigenvalues_rank_and_tol", lp.eq(z3.Real("derived_log_pdet")) and ip.to_U(a[0]).eq(ip.uf("eigvals_of", P))
+             and any(is_z3(x) and x.eq(z3.Real("derived_rank")) for x in list(a[1:]) + list(k.values())) and any(x is tol for x in list(a[1:]) + list(k.values())))
+    d2 = Obj(cls, {"_prec": P, "_loc": z3.Const("loc", U), "_rank": z3.Real("given_rank"), "_log_pdet": z3.Real("given_lpd"), "_tol": tol})
+    c.oblige("supplied_values_win", ip.getattr(d2, "rank").eq(z3.Real("given_rank")) and ip.getattr(d2, "log_pdet").eq(z3.Real("given_lpd")))
